@@ -30,6 +30,7 @@ import subprocess
 from vf import build, coq
 from vf.core import REPO, VERIF, sh
 from props import c01_progs as G
+from props import c01_scen as SC
 
 HARNESS_SRC = os.path.join(VERIF, "harness/c/c01_harness.c")
 RECOVER_FNS = [8, 9, 10, 11]        # f8..f11 carry the `recover` trigger
@@ -53,7 +54,7 @@ def gen_tree(rng, shape, maxd=6, budget=24):
 
     def hook():
         w = {"mixed": "NMMMRCC", "pg": "NMMM", "cyg": "NCCC", "recover": "MMRRN", "tail": "NMMMC",
-             "deep": "MMMN", "cygpg": "MCMC", "plt": "NMMPPC", "plttail": "MPMP"}[shape]
+             "deep": "MMMN", "cygpg": "MCMC", "plt": "NMMPPC", "plttail": "MPMP", "recoverplt": "MRPPCM"}[shape]
         return rng.choice(w)
 
     def mk(d, allow_tail=True):
@@ -69,7 +70,7 @@ def gen_tree(rng, shape, maxd=6, budget=24):
                     break
                 n.kids.append(mk(d + 1))
         if allow_tail and left[0] > 0:
-            p = {"tail": 0.7, "mixed": 0.3, "recover": 0.3, "pg": 0.25, "plttail": 0.7, "plt": 0.3}.get(shape, 0.1)
+            p = {"tail": 0.7, "mixed": 0.3, "recover": 0.3, "pg": 0.25, "plttail": 0.7, "plt": 0.3, "recoverplt": 0.6}.get(shape, 0.1)
             nt = 0
             while rng.random() < p and nt < 3 and left[0] > 0:
                 n.tails.append(mk(d, allow_tail=(rng.random() < 0.4)))
@@ -444,23 +445,27 @@ def run_hook_xmm(h, rng):
 
 
 def run_hook_vec(h, rng):
-    """mcount_entry / mcount_exit called with chosen whole vector registers (the widest the CPU has) while the libc
-    stand-in overwrites them and ends with vzeroupper -> [(level, hook, before, after)]"""
+    """mcount_entry / mcount_exit called with chosen whole vector registers (the widest the CPU has) and a chosen MXCSR
+    while the libc stand-in overwrites them and ends with vzeroupper -> [(level, hook, before, after, csr_before, csr_after)]"""
     def words(regs):
         return " ".join("%x" % w for r in regs for w in r)
+    def csr():
+        return 0x1f80 | (rng.randrange(4) << 13) | rng.randrange(0x40) | (0x8000 if rng.random() < 0.3 else 0)
     b = [gen_xmm(rng, "rnd")[0] for _ in range(4)]
-    lines = ["P 1 100", "VE 0 1 " + words(b[0]), "P 2 101", "VE 1 2 " + words(b[1]), "VR 2 " + words(b[2]), "VR 1 " + words(b[3])]
+    cs = [csr() for _ in range(4)]
+    lines = ["P 1 100", "VE 0 1 %s %x" % (words(b[0]), cs[0]), "P 2 101", "VE 1 2 %s %x" % (words(b[1]), cs[1]),
+             "VR 2 %s %x" % (words(b[2]), cs[2]), "VR 1 %s %x" % (words(b[3]), cs[3])]
     rc, out, err = h.run(lines, 4)
     res = []
-    for hook, bef, line in (("mcount_entry", b[0], out[1]), ("mcount_entry", b[1], out[3]),
-                            ("mcount_exit", b[2], out[4]), ("mcount_exit", b[3], out[5])):
+    for hook, bef, c0, line in (("mcount_entry", b[0], cs[0], out[1]), ("mcount_entry", b[1], cs[1], out[3]),
+                                ("mcount_exit", b[2], cs[2], out[4]), ("mcount_exit", b[3], cs[3], out[5])):
         k = line.partition(" | ")[0].split()
         level = int(k[1])
-        vals = [int(x, 16) for x in k[-128:]]
+        vals = [int(x, 16) for x in k[-129:-1]]
         nvis = [2, 4, 8][level]
         # words that do not exist on this machine are not compared: present them as the model computes them
         bef = [tuple(list(r[:nvis]) + [0] * (8 - nvis)) for r in bef]
-        res.append((level, hook, bef, [tuple(vals[8 * i:8 * i + 8]) for i in range(16)]))
+        res.append((level, hook, bef, [tuple(vals[8 * i:8 * i + 8]) for i in range(16)], c0, int(k[-1], 16)))
     return res
 
 
@@ -494,8 +499,8 @@ def evaluate_chunk(ctx, scases, xcases, name, hcases=(), tcases=(), ecases=(), d
     defs += "Local Open Scope nat_scope.\nDefinition dcases : list sched_case := [\n%s\n].\nLocal Open Scope Z_scope.\n" % ";\n".join(
         coq_sched_case(c) for c in dcases)
     defs += "Definition ycases : list hook_vec_case := [\n%s\n].\n" % ";\n".join(
-        '{| hv_level := %d%%nat; hv_hook := "%s"%%string; hv_before := %s; hv_after := %s |}' % (lv, hk, coq_vregs(b), coq_vregs(a))
-        for (lv, hk, b, a) in ycases)
+        '{| hv_level := %d%%nat; hv_hook := "%s"%%string; hv_before := %s; hv_after := %s; hv_csr_before := %d; hv_csr_after := %d |}'
+        % (lv, hk, coq_vregs(b), coq_vregs(a), c0, c1) for (lv, hk, b, a, c0, c1) in ycases)
     res = coq.run_cases(ctx, name, PRE, defs, [
         ("y_mismatch", "bad_indices hook_vec_agrees ycases 0"),
         ("y_violations", "bad_indices hook_vec_ok ycases 0"),
@@ -553,6 +558,8 @@ def evaluate(ctx, scases, xcases, name="cases", chunk=50, hcases=(), tcases=(), 
 # ================================================================ objdump monitor
 ALLOWED_SITES = [
     (r"^(mcount_return|dynamic_return|plthook_return|__xray_exit)$", r"^movdqu\s+(%xmm0,0x10\(%rsp\)|0x10\(%rsp\),%xmm0)$"),
+    (r"^mcount_save_arch_context$", r"^stmxcsr\s+(0x[0-9a-f]+)?\(%r\w+\)$"),
+    (r"^mcount_restore_arch_context$", r"^ldmxcsr\s+(0x[0-9a-f]+)?\(%r\w+\)$"),
     (r"^mcount_save_arch_context(_sse|_avx|_avx512)?(\.\w+)*$", r"^(movdqu\s+%xmm|vmovdqu\s+%ymm|vmovdqu64\s+%zmm)[0-7],(0x[0-9a-f]+)?\(%r\w+\)$"),
     (r"^mcount_restore_arch_context(_sse|_avx|_avx512)?(\.\w+)*$", r"^(movdqu\s+(0x[0-9a-f]+)?\(%r\w+\),%xmm|vmovdqu\s+(0x[0-9a-f]+)?\(%r\w+\),%ymm|vmovdqu64\s+(0x[0-9a-f]+)?\(%r\w+\),%zmm)[0-7]$"),
     (r"^mcount_(get_register_arg|arch_get_arg|get_struct_arg)(\.\w+)*$", r"^movs[sd]\s+%xmm[0-7],[^%]*\(%r\w+\)$"),
@@ -596,6 +603,15 @@ def objdump_monitor(ctx, objdir):
 
 
 # ================================================================ end-to-end differential
+SCRIPT_FP_PY = """import math
+def uftrace_entry(ctx):
+    n = len(ctx["name"]) + 1
+    x = n / 3.0 + math.sqrt(n + 0.5)
+def uftrace_exit(ctx):
+    n = len(ctx["name"]) + 2
+    y = n / 7.0
+"""
+
 SCRIPT_PY = """def uftrace_entry(ctx):
     x = 1.5 * 2.5 + len(ctx.get("name", ""))
 def uftrace_exit(ctx):
@@ -607,6 +623,9 @@ def option_sets(scratch):
     spy = os.path.join(scratch, "c01_script.py")
     if not os.path.exists(spy):
         open(spy, "w").write(SCRIPT_PY)
+    spf = os.path.join(scratch, "c01_script_fp.py")
+    if not os.path.exists(spf):
+        open(spf, "w").write(SCRIPT_FP_PY)
     return {
         "plain": [],
         "no-libcall": ["--no-libcall"],
@@ -621,10 +640,29 @@ def option_sets(scratch):
         "recover": ["-T", "f2@recover", "-T", "f5@recover"],
         "libargs": ["-A", "strlen@arg1/s", "-A", "snprintf@arg3/s", "-R", "strtol@retval"],
         "finish": ["-T", "finish_now@finish"],
+        "script-fp": ["-S", spf],
+        "max-stack": ["--max-stack", "6"],
+        "max-stack-16": ["--max-stack", "16"],
+        "max-stack-16-l": ["--max-stack", "16", "-l"],
+        "max-stack-64": ["--max-stack", "64"],
+        "disable": ["--disable"],
+        "no-pltbind": ["--no-pltbind"],
+        "num-thread": ["--num-thread", "3"],
+        "clock": ["--clock", "mono_raw"],
+        "caller": ["-C", "f3"],
+        "size-filter": ["-Z", "40"],
+        "trace-off-on": ["-T", "f2@trace_off", "-T", "f4@trace_on"],
+        "watch-cpu": ["-W", "cpu"],
+        "signal-trigger": ["--signal", "SIGUSR1@finish"],
+        "hide": ["-H", "f1"],
+        "fparg": ["-A", "^f[0-9]+$@fparg1/64", "-R", "^f[0-9]+$@retval/f64"],
+        "time-auto-args": ["-t", "1us", "-a"],
+        "backtrace": ["-T", "f1@color=red,backtrace"],
         "small-buffer": ["-b", "4k"],
         "read-trigger": ["-T", "fd@read=proc/statm", "-T", "fc@read=proc/statm", "-T", "f1@read=proc/statm", "-T", "f3@read=page-fault"],
         "args-g": ["-A", "g@arg1/s", "-A", "q@arg1/s"],
         "args-f8": ["-A", "f8@arg1/s"],
+        "recover-rec": ["-T", "rec@recover"],
         "args-fa": ["-A", "fa@arg1/s"],
     }
 
@@ -643,7 +681,27 @@ def have_avx512():
         return False
 
 
+MULTI = {}      # name -> corpus entry with "files" + "build" (several differently built objects)
+
+
+def compile_multi(workdir, name, entry):
+    d = os.path.join(workdir, name + ".d")
+    exe = os.path.join(d, "prog")
+    if os.path.exists(exe):
+        return exe
+    os.makedirs(d, exist_ok=True)
+    for fn, text in entry["files"].items():
+        open(os.path.join(d, fn), "w").write(text)
+    for cmd in entry["build"]:
+        rc, out, err = sh(cmd, timeout=120, cwd=d)
+        if rc != 0:
+            raise RuntimeError("corpus witness %s does not build (%s): %s" % (name, cmd, err[-800:]))
+    return exe
+
+
 def compile_prog(workdir, name, src, mode, opt, cflags=()):
+    if name in MULTI:
+        return compile_multi(workdir, name, MULTI[name])
     c = os.path.join(workdir, name + ".c")
     if not os.path.exists(c):
         open(c, "w").write(src)
@@ -716,9 +774,12 @@ def e2e_compare(nat, traced, live, status_unreliable=False):
     if digest_lines(tout) != digest_lines(nout):
         problems.append("DIGEST lines on stdout differ from the native run")
     if not live and not status_unreliable:      # after a finish trigger the recorder may leave before the program does
-        if status != nrc:
+        if nrc < 0:
+            if not (isinstance(status, str) and status.startswith("terminated by signal: %d " % -nrc)):
+                problems.append("the native program died of signal %d, the traced one: %r" % (-nrc, status))
+        elif status != nrc:
             problems.append("exit status of the traced program is %r, native %r" % (status, nrc))
-        if (trc != 0) != (nrc != 0) and trc != 124:
+        if nrc >= 0 and (trc != 0) != (nrc != 0) and trc != 124:
             problems.append("uftrace exit code %d does not reflect the program's status %d" % (trc, nrc))
     return problems
 
@@ -729,7 +790,8 @@ def e2e_plan(ctx):
     plan = []
     nprog = ctx.n(10, 60)
     per = ctx.n(10, 24)
-    osets = [o for o in option_sets(ctx.scratch) if not o.startswith("args-") and o != "finish"]
+    osets = [o for o in option_sets(ctx.scratch) if not o.startswith("args-") and not o.startswith("max-stack-")
+             and o not in ("finish", "script-fp", "recover-rec")]
     for pi in range(nprog):
         threads = 4 if pi % 3 == 1 else 1
         classes = None if pi % 2 == 0 else rng.sample(list(G.CLASSES), 3) + ["vector"]
@@ -745,7 +807,10 @@ def e2e_plan(ctx):
             oset = rng.choice(osets)
             if mode == "cyg" and oset in ("args", "auto-args", "recover"):
                 oset = "plain"
-            combos.append((mode, rng.choice(["-O0", "-O2"]), oset, rng.random() < 0.08 and oset == "plain"))
+            if mode == "fentry-nop" and oset in ("script",):
+                pass
+            combos.append((mode, rng.choice(["-O0", "-O2", "-O2", "-O1", "-O3", "-Os"]), oset,
+                           rng.random() < 0.12 and oset in ("plain", "depth", "nest-libcall", "args", "estimate-return")))
         plan.append((params, combos))
     return plan
 
@@ -771,9 +836,22 @@ def e2e(ctx, objdir):
         if (c.get("needs_avx") and not have_avx()) or (c.get("needs_avx512") and not have_avx512()):
             continue
         key = "c%d" % ci
+        if "files" in c:
+            MULTI[key] = c
         sources[key] = c["source"]
         jobs.append((key, {"corpus": c["name"], "seed": c["name"], "threads": 1}, c["source"],
                      {"sigs": [c["name"]]}, c["mode"], c["opt"], c["optset"], False))
+    # clause-audit scenarios: exit paths, call depth beyond --max-stack, FP environment, fork/vfork/exec, signals
+    for si, name in enumerate(sorted(SC.SCENARIOS)):
+        key = "s_" + name
+        sources[key] = SC.source(name)
+        for _ in range(ctx.n(1, 4)):
+            mode = ctx.rng.choice(["pg", "fentry", "cyg", "patchable", "cyg" if name.startswith("ovf") else "fentry-nop"])
+            oset = ctx.rng.choice(SC.PLAN[name])
+            if mode == "cyg" and oset in ("args", "auto-args"):
+                oset = "plain"
+            jobs.append((key, {"scenario": name, "seed": ("scenario", name), "threads": 1}, sources[key],
+                         {"sigs": ["scenario:" + name]}, mode, ctx.rng.choice(["-O1", "-O2"]), oset, False))
     # finish-trigger scenarios: another thread ends tracing while workers sit in (tail-)called functions
     import random
     for fi in range(ctx.n(6, 40)):
@@ -812,6 +890,8 @@ def e2e(ctx, objdir):
             tags.append("e2e:live")
         if "corpus" in params:
             tags.append("corpus:" + params["corpus"])
+        if "scenario" in params:
+            tags.append("scenario:" + params["scenario"])
         if "finish" in params:
             fd = params["finish"]
             tags += ["finish:" + ("tail" if fd["tail"] else "call") + "-chain=%d" % fd["chain"],
@@ -905,7 +985,7 @@ def common_meta(ctx):
     ]
 
 
-SHAPES = ["mixed", "pg", "cyg", "recover", "tail", "deep", "cygpg", "plt", "plttail"]
+SHAPES = ["mixed", "pg", "cyg", "recover", "tail", "deep", "cygpg", "plt", "plttail", "recoverplt"]
 
 
 def run(ctx):
@@ -916,7 +996,7 @@ def run(ctx):
 
     # ---- (a) shadow-stack trees
     scases = []
-    n = ctx.n(280, 3000)
+    n = ctx.n(200, 3000)
     groups = {}
     for i in range(n):
         shape = SHAPES[i % len(SHAPES)]
@@ -944,7 +1024,7 @@ def run(ctx):
                                   {"kind": "shadow", "tree": json_tree(tree), "env": env, "stderr": c["stderr"]}, True)
     # ---- (b) xmm pair
     xcases = []
-    for i in range(ctx.n(24, 200)):
+    for i in range(ctx.n(10, 200)):
         kind = ["rnd", "hi-zero", "hi-ones", "upper-zero", "rnd"][i % 5]
         before, clobber = gen_xmm(ctx.rng, kind)
         avx, after = run_xmm(h, before, clobber)
@@ -953,7 +1033,7 @@ def run(ctx):
                  sample={"xmm": {"before0": ["%x" % w for w in before[0]], "after0": ["%x" % w for w in after[0]]}}
                  if i == 0 else None)
     hcases = []
-    for i in range(ctx.n(6, 40)):
+    for i in range(ctx.n(3, 40)):
         for hc in run_hook_xmm(h, ctx.rng):
             hcases.append(hc)
             ctx.case(key=("hookxmm", hc[0], tuple(hc[1])), tags=["hookxmm:" + hc[0]],
@@ -963,9 +1043,9 @@ def run(ctx):
     for i in range(ctx.n(4, 30)):
         for hc in run_hook_vec(h, ctx.rng):
             ycases.append(hc)
-            ctx.case(key=("hookvec", hc[1], tuple(hc[2])), tags=["hookvec:%s:level=%d" % (hc[1], hc[0])])
+            ctx.case(key=("hookvec", hc[1], tuple(hc[2])), tags=["hookvec:%s:level=%d" % (hc[1], hc[0]), "mxcsr:rc=%d" % ((hc[4] >> 13) & 3)])
     tcases = []
-    for i in range(ctx.n(30, 300)):
+    for i in range(ctx.n(18, 300)):
         tree = gen_tree(ctx.rng, ["tail", "pg", "plttail", "plt", "deep"][i % 5], maxd=4, budget=10)
         c = run_stop_case(h, tree, ctx.rng)
         if c is None:
@@ -978,7 +1058,7 @@ def run(ctx):
         ctx.case(key=("stop", coq_tree(tree), c["cut"]), tags=["finish:in-process"] +
                  (["finish:tail-called-returns"] if "URet 1 (Real" in c["obs"] and any(o[0] == "E" and o[2] == c["slot"] for o in c["ops"][-1:]) else []))
     ecases = []
-    for i in range(ctx.n(24, 300)):
+    for i in range(ctx.n(16, 300)):
         tree = gen_tree(ctx.rng, SHAPES[i % len(SHAPES)], maxd=ctx.rng.choice([3, 5]), budget=ctx.rng.choice([6, 14]))
         c = run_est_case(h, tree)
         if c["crashed"]:
@@ -990,7 +1070,7 @@ def run(ctx):
         tree_tags(c["tree"], tags)
         ctx.case(key=("est", coq_tree(c["tree"])), tags=sorted("est:" + t for t in tags if not t.startswith("leaf")))
     dcases = []
-    for i in range(ctx.n(16, 200)):
+    for i in range(ctx.n(10, 200)):
         nth = ctx.rng.choice([2, 2, 3, 4])
         trees = [gen_tree(ctx.rng, ctx.rng.choice(["pg", "tail", "plt", "cygpg", "mixed"]), maxd=4, budget=8) for _ in range(nth)]
         c = run_sched_case(h, trees, ctx.rng)
@@ -1022,14 +1102,14 @@ def verdict(ctx, scases, xcases, res, hcases=(), tcases=(), ecases=(), dcases=()
     if res is None:
         return
     for i in res.get("y_violations", [])[:3]:
-        lv, hk, b, a = ycases[i]
-        ctx.violation("C01 violated: %s does not give back every bit of vector registers 0-7 (%s) when libc code it reaches "
-                      "uses the vector registers and ends with vzeroupper (vector arguments / return values of the traced "
-                      "function)" % (hk, ["xmm", "ymm", "zmm"][lv]),
+        lv, hk, b, a, c0, c1 = ycases[i]
+        ctx.violation("C01 violated: %s does not give back every bit of vector registers 0-7 (%s) or MXCSR (%#x -> %#x) when libc "
+                      "code it reaches uses the vector unit and ends with vzeroupper (vector arguments / return values / "
+                      "floating-point environment of the traced function)" % (hk, ["xmm", "ymm", "zmm"][lv], c0, c1),
                       {"kind": "hookxmm", "hook": hk, "before": [list(map(hex, p)) for p in b],
                        "after": [list(map(hex, p)) for p in a]}, True)
     if res.get("y_mismatch") and not res.get("y_violations"):
-        lv, hk, b, a = ycases[res["y_mismatch"][0]]
+        lv, hk, b, a, c0, c1 = ycases[res["y_mismatch"][0]]
         ctx.violation("hook-call vector contract (Model.hook_call_vec with the generated wrappers and pairs) and the real %s disagree" % hk,
                       {"kind": "hookxmm", "hook": hk, "before": [list(map(hex, p)) for p in b],
                        "after": [list(map(hex, p)) for p in a]}, False)
